@@ -18,7 +18,7 @@ def _table():
     import pydiverse.transform as pdt
 
     df = pl.DataFrame({"a": [3, -1, None, 0, 5], "b": [1, 1, 2, 2, None], "s": ["x", None, "y", "x", "z"], "f": [1.5, None, -2.0, 0.0, 4.0],
-                       "c": [True, False, None, True, False]})
+                       "c": [True, False, None, True, False], "n": [" 1", "2 ", None, "30", " 4 "]})
     return pdt.Table(df, name="ea")
 
 
@@ -30,6 +30,7 @@ def receivers(t):
         ("col_int", lambda: t.a),
         ("arith", lambda: (t.a + 1) * t.b),
         ("string", lambda: t.s + "q"),
+        ("numstr", lambda: t.n.str.replace_all("x", "")),
         ("boolean", lambda: (t.a > 0) & t.c),
         ("case_partial", lambda: pdt.when(t.a > 0).then(1)),
         ("case_two", lambda: pdt.when(t.a > 0).then(1).when(t.a < 0).then(-1)),
@@ -105,13 +106,20 @@ DOCUMENTED = {"DataTypeError", "FunctionTypeError", "ColumnNotFoundError", "Valu
 
 
 def _value(t, e):
+    """the receiver evaluated in three contexts: on the table, after a filter (fewer rows than the source), and - cast to an
+    integer - after the filter (the Polars Cast compilation goes through the receiver's own `.str` accessor)"""
     import pydiverse.transform as pdt
 
-    try:
-        df = t >> pdt.mutate(zz=e) >> pdt.select(pdt.C.zz) >> pdt.export(pdt.Polars())
-        return ("ok", str(df.schema), [repr(x) for x in df.get_column("zz").to_list()])
-    except Exception as ex:  # noqa: BLE001
-        return ("error", type(ex).__name__)
+    out = []
+    for ctx in ("plain", "filtered", "filtered_cast"):
+        try:
+            p = t if ctx == "plain" else t >> pdt.filter(t.b >= 1)
+            x = e.cast(pdt.Int64()) if ctx == "filtered_cast" else e
+            df = p >> pdt.mutate(zz=x) >> pdt.select(pdt.C.zz) >> pdt.export(pdt.Polars())
+            out.append(("ok", str(df.schema), [repr(v) for v in df.get_column("zz").to_list()]))
+        except Exception as ex:  # noqa: BLE001
+            out.append(("error", type(ex).__name__))
+    return out
 
 
 def run_stream():
@@ -131,9 +139,7 @@ def run_stream():
                 rec["built"] = False
                 rec["exc"] = type(ex).__name__
             after = heapfp.snapshot([e])
-            # the namespace accessors (.str / .dt / .dur / .list) are cached on first use: a memo, not an observable change
-            ch = [c for c in heapfp.changed(before, after)
-                  if not any(str(c).endswith(f".{ns} added") for ns in ("str", "dt", "dur", "list"))]
+            ch = list(heapfp.changed(before, after))
             if ch:
                 rec["outcome"] = "changed"
                 rec["detail"] = [str(c)[:200] for c in ch[:4]]
